@@ -25,7 +25,7 @@ ASSUMPTIONS = [
     "sim(residual(y)) is compared with y at the non-missing positions of y",
 ]
 OBLIGATIONS = {"order=1": 20, "order=10": 10, "nan-innov": 30, "nan-first-steps": 20,
-               "nan-inputs": 30, "len=0": 5, "len=1": 5, "default-mean": 30,
+               "nan-inputs": 30, "len=0": 5, "len=1": 5, "default-mean": 30, "default-mean:no-valid-input": 10, "options-by-position": 30, "series-constant-at-the-mean": 30,
                "explicit-ini": 30, "explicit-ini=0": 10, "reject:order": 20, "reject:nan-param": 20,
                "negative-coef": 30, "size-edge": 10}
 EPS = 2.0 ** -52
@@ -332,8 +332,52 @@ def run_case(ctx, case):
         mres = mean
         kwr = dict(kw)
         inir = ini_eff
+    # default mean with nothing to take a mean from (no step at all, or every step
+    # missing): the answer is still the zero residual of each missing input
+    for ynone in ([yin] if n == 0 else [np.full(n, np.nan)] if n <= 6 or n % 7 == 0
+                  else []):
+        ctx.api("armodel_residual")
+        ctx.tag("default-mean:no-valid-input")
+        try:
+            r0 = np.asarray(call(ar.armodel_residual, params, ynone.copy()))
+            ctx.check("residual.default-mean-without-valid-input",
+                      r0.shape == ynone.shape and bool(np.all(r0 == 0)),
+                      "armodel_residual|default-mean|nonzero-without-valid-input", case,
+                      lambda: {"n": n, "residuals": r0[:5]})
+        except Exception as ex:
+            ctx.check("residual.default-mean-without-valid-input", False,
+                      "armodel_residual|default-mean|raises-without-valid-input",
+                      dict(case, n_series=n), {"n": n, "exc": repr(ex)[:200]})
     ctx.api("armodel_residual")
     r2 = call(ar.armodel_residual, params, yin.copy(), **kwr)
+    if kwr and n % 2:
+        # mean and initial value given by position, in the documented order
+        ctx.tag("options-by-position")
+        pos = [kwr["sim_mean"]] + ([kwr["sim_ini"]] if "sim_ini" in kwr else [])
+        rp = call(ar.armodel_residual, params, yin.copy(), *pos)
+        yp = call(ar.armodel_sim, params, e.copy(), *pos)
+        ctx.api("armodel_sim")
+        ctx.check("options.by-position", same_result(rp, r2, 0.0, 0.0) and
+                  same_result(yp, y, 0.0, 0.0),
+                  "armodel|options-by-position-differ-from-options-by-name", case,
+                  lambda: {"residual_by_position": np.asarray(rp)[:4],
+                           "residual_by_name": np.asarray(r2)[:4],
+                           "sim_by_position": np.asarray(yp)[:4], "sim_by_name": y[:4]})
+    if explicit and stable:
+        # a series that sits exactly on the mean while the initial value does not: the
+        # first residuals carry the decay from the initial value
+        for k_ in sorted({1, 3, min(n, 40)} - {0}):
+            yc = np.full(k_, mean)
+            ctx.tag("series-constant-at-the-mean")
+            rc = np.asarray(call(ar.armodel_residual, params, yc.copy(), sim_mean=mean,
+                                 sim_ini=ini), dtype=float)
+            rcr, rcb = ref_res(phi.tolist(), yc.tolist(), mean, ini)
+            sc_ = max(abs(mean), abs(ini), 1e-300)
+            badc = np.where(~(np.abs(rc - rcr) <= 64 * rcb + 1e-13 * sc_))[0]
+            ctx.check("residual.constant-at-mean", len(badc) == 0,
+                      "armodel_residual|definition|series-constant-at-the-mean", case,
+                      lambda: {"t": int(badc[0]), "got": float(rc[badc[0]]),
+                               "ref": float(rcr[badc[0]]), "mean": mean, "ini": ini})
     rref, rb = ref_res(phi.tolist(), yin.tolist(), mres, inir)
     if stable:
         badr = np.where(~(np.abs(r2 - rref) <= 64 * rb + FLOOR))[0]
